@@ -13,7 +13,7 @@
 (* State S (one record, so that the trace specification can apply the same *)
 (* operators to the state OBSERVED on the real library):                   *)
 (*   S.open       open models                                              *)
-(*   S.sp[m]      spaces of m that exist (subset of {"A","B"})             *)
+(*   S.sp[m]      spaces of m that exist (subset of {"A","B","K"})         *)
 (*   S.base[m]    B derives from A  (B.add_bases(A))                       *)
 (*   S.refs[m]    {[sp, n, v, d]}  own references (sp = "" : model level); *)
 (*                d = derived                                              *)
@@ -50,7 +50,8 @@ CONSTANTS Models,      \* e.g. {"M1","M2"}
 
 CellNames    == {"c"}
 InvalidNames == {"1x"}
-SpaceNames   == {"A", "B"}
+SpaceNames   == {"A", "B", "K"}     \* K is a child space of A: it goes away with A
+TopSpaces    == {"A", "B"}
 
 IsObj(v)   == v >= 100
 SpaceOf(v) == IF v \in {101, 102} THEN "A" ELSE "B"
@@ -100,8 +101,9 @@ OwnNames(St, m, sp)  == {r.n : r \in {r \in St.refs[m] : r.sp = sp}}
 \* names visible in a parent: cells, own references, model-level references
 \* (a model: its spaces and its references)
 Namespace(St, m, sp) ==
-    IF sp = "" THEN St.sp[m] \cup GlobalNames(St, m)
+    IF sp = "" THEN (St.sp[m] \cap TopSpaces) \cup GlobalNames(St, m)
     ELSE CellNames \cup OwnNames(St, m, sp) \cup GlobalNames(St, m)
+         \cup (IF sp = "A" /\ "K" \in St.sp[m] THEN {"K"} ELSE {})
 
 \* effect of SpaceManager.update_subs / the propagation loops of new_ref,
 \* change_ref, del_ref (model.py:1354-1356, 1500-1560) on the one base/sub
@@ -161,7 +163,7 @@ RmChangeRef(St, m, sp, n, v) ==
 \* (reached from `parent.name = value`, parent.py:93-104)
 SetAttr(St, m, sp, n, v) ==
     IF sp = ""
-    THEN IF n \in St.sp[m] THEN Result(St, "rejected")                   \* KeyError, 981-982
+    THEN IF n \in St.sp[m] \cap TopSpaces THEN Result(St, "rejected")                   \* KeyError, 981-982
          ELSE IF n \in GlobalNames(St, m) THEN RmChangeRef(St, m, sp, n, v)
          ELSE RmNewRef(St, m, sp, n, v)                                   \* no name check
     ELSE IF n \in InvalidNames THEN Result(St, "rejected")               \* ValueError, 1756-1757
@@ -267,9 +269,10 @@ RemoveBaseStep(St, op) ==
 \* its spec (first found)
 DelSpaceStep(St, op) ==
     LET m == op.m
-        S1 == [St EXCEPT !.sp[m] = @ \ {op.sp}, !.base[m] = FALSE]
-        S2 == [S1 EXCEPT !.refs[m] = Rederive(S1, m, {r \in @ : r.sp # op.sp})]
-        regs == {t \in St.v2r[m] : t.sp = op.sp
+        gsp == IF op.sp = "A" THEN {"A", "K"} ELSE {op.sp}      \* child spaces go with the parent
+        S1 == [St EXCEPT !.sp[m] = @ \ gsp, !.base[m] = IF op.sp \in TopSpaces THEN FALSE ELSE @]
+        S2 == [S1 EXCEPT !.refs[m] = Rederive(S1, m, {r \in @ : r.sp \notin gsp})]
+        regs == {t \in St.v2r[m] : t.sp \in gsp
                    /\ \E r \in St.refs[m] : r.sp = t.sp /\ r.n = t.n /\ r.v = t.v /\ ~r.d}
         S3 == [S2 EXCEPT !.v2r[m] = @ \ regs]
         dead == {v \in {t.v : t \in regs} : ~\E t \in S3.v2r[m] : t.v = v}
@@ -354,7 +357,7 @@ OpsOf(St, m) ==
     \cup {[op |-> "update", m |-> m, old |-> o, new |-> w] :
         o \in {x.v : x \in SpecsOf(St, m)} \cap MVals, w \in FreshM(St)}
     \cup (IF St.base[m] THEN {[op |-> "remove_base", m |-> m]}
-          ELSE IF SpaceNames \subseteq St.sp[m] THEN {[op |-> "add_base", m |-> m]} ELSE {})
+          ELSE IF TopSpaces \subseteq St.sp[m] THEN {[op |-> "add_base", m |-> m]} ELSE {})
     \* (a space is only deleted when no reference outside it points into it:
     \*  dangling references are not C18's subject)
     \cup (IF WithDelSpace
